@@ -1,14 +1,5 @@
 package main
 
-import (
-	"fmt"
-	"go/ast"
-	"go/token"
-	"go/types"
-	"sort"
-	"strings"
-)
-
 func init() {
 	register("C08", checkC08, "equality of the loop output with the unrolled rendering; the order in which reflect enumerates a Go map; a return inside a loop body (recorded under C16)")
 }
@@ -25,863 +16,6 @@ func checkC08(r *Run) {
 	inLoopFlagRuleSSA(r, "R5")
 }
 
-type loopSummary struct {
-	kind     string
-	loop     *ast.ForStmt
-	features []string
-	problems []string
-	keyExpr  ast.Expr
-	valExpr  ast.Expr
-}
-
-func forLoopsRule(r *Run) {
-	w := r.W
-	f := w.evalMethod("ForExpression")
-	blockEval := w.evalMethod("BlockStatement")
-	if f == nil || blockEval == nil {
-		r.Lost("R1", "for evaluator / block evaluator")
-		return
-	}
-	info := f.Pkg.TypesInfo
-	node := f.Obj.Type().(*types.Signature).Params().At(0)
-	ctxF := w.compilerField("ctx")
-	// the element loops: for statements whose body (not a nested loop) evaluates node.Block
-	var loops []*ast.ForStmt
-	inspectBody(f.Decl.Body, true, func(n ast.Node) bool {
-		l, ok := n.(*ast.ForStmt)
-		if !ok {
-			return true
-		}
-		for _, st := range l.Body.List {
-			for _, c := range callsIn(st, true) {
-				if calleeOf(info, c) == blockEval.Obj {
-					loops = append(loops, l)
-					return true
-				}
-			}
-		}
-		return true
-	})
-	if len(loops) != 3 {
-		r.Bad("R1", f.Name(), fmt.Sprintf("%d element loops", len(loops)), w.Pos(f.Decl.Pos()), "expected the three sibling element loops (map, slice/array, iterator)")
-	}
-	var sums []loopSummary
-	for _, l := range loops {
-		s := loopSummary{loop: l}
-		var retVar types.Object
-		step := 0
-		add := func(feat string) { s.features = append(s.features, feat) }
-		prob := func(p string) { s.problems = append(s.problems, p) }
-		nBlock := 0
-		for _, st := range l.Body.List {
-			switch x := st.(type) {
-			case *ast.ExprStmt:
-				c, ok := x.X.(*ast.CallExpr)
-				if !ok {
-					prob("unexpected statement " + short(w.Fset, st))
-					continue
-				}
-				cal := calleeOf(info, c)
-				sel, _ := unparen(c.Fun).(*ast.SelectorExpr)
-				if cal != nil && cal.Name() == "Set" && sel != nil && len(c.Args) == 2 {
-					if _, fld := fieldOf(info, sel.X); fld != ctxF {
-						prob("Set on something other than the current scope")
-						continue
-					}
-					if x2, fld := fieldOf(info, c.Args[0]); fld != nil && objOf(info, x2) == node {
-						switch fld.Name() {
-						case "KeyName":
-							add("bind-key")
-							s.keyExpr = c.Args[1]
-						case "ValueName":
-							add("bind-value")
-							s.valExpr = c.Args[1]
-						default:
-							prob("binds " + fld.Name())
-						}
-						if step > 0 {
-							prob("binding after the block was evaluated")
-						}
-						continue
-					}
-				}
-				prob("unexpected call " + short(w.Fset, c))
-			case *ast.AssignStmt:
-				// res, err := evalBlock(node.Block) | k := keys[i] | v := ... | breakLoop := false | ii = it.Next()
-				if len(x.Rhs) == 1 {
-					if c, ok := x.Rhs[0].(*ast.CallExpr); ok && calleeOf(info, c) == blockEval.Obj {
-						nBlock++
-						if bx, fld := fieldOf(info, c.Args[0]); fld == nil || fld.Name() != "Block" || objOf(info, bx) != node {
-							prob("evaluates something other than node.Block")
-						}
-						add("eval-block")
-						step = 1
-						if len(x.Lhs) == 2 {
-							retVar = objOf(info, x.Lhs[0])
-						}
-						continue
-					}
-				}
-				// harmless locals
-			case *ast.IfStmt:
-				cond := short(w.Fset, x.Cond)
-				switch {
-				case isErrNotNil(info, x.Cond) && len(x.Body.List) == 1 && isReturnNilErr(info, x.Body.List[0]):
-					add("return-on-error")
-				case isNotNilOf(info, x.Cond, retVar) && len(x.Body.List) == 1 && isAppendOf(info, x.Body.List[0], retVar):
-					add("accumulate-non-nil")
-				case len(x.Body.List) == 1 && isBreak(x.Body.List[0]) && objOf(info, x.Cond) != nil:
-					add("leave-if-break-flag")
-				default:
-					prob("unexpected if " + cond)
-				}
-			case *ast.TypeSwitchStmt:
-				// switch val := res.(type) { case continueObject: res = val.Value; case breakObject: flag = true; res = val.Value }
-				for _, c := range x.Body.List {
-					cc := c.(*ast.CaseClause)
-					if len(cc.List) != 1 {
-						prob("type switch arm with several types or default")
-						continue
-					}
-					tn := typeStr(info.Types[cc.List[0]].Type)
-					sets := map[string]bool{}
-					for _, bs := range cc.Body {
-						if as, ok := bs.(*ast.AssignStmt); ok && len(as.Lhs) == 1 && len(as.Rhs) == 1 {
-							if objOf(info, as.Lhs[0]) == retVar {
-								if bx, fld := fieldOf(info, as.Rhs[0]); fld != nil && fld.Name() == "Value" && objOf(info, bx) == info.Implicits[cc] {
-									sets["res=val.Value"] = true
-									continue
-								}
-							}
-							if tv := info.Types[as.Rhs[0]]; tv.Value != nil && tv.Value.ExactString() == "true" {
-								sets["flag=true"] = true
-								continue
-							}
-						}
-						if b, ok := bs.(*ast.BranchStmt); ok && b.Tok == token.BREAK {
-							prob("'break' inside the type switch only leaves the switch, not the loop")
-							continue
-						}
-						sets["other:"+short(w.Fset, bs)] = true
-					}
-					var ks []string
-					for k := range sets {
-						ks = append(ks, k)
-					}
-					sort.Strings(ks)
-					add("on-" + strings.TrimPrefix(tn, "plush.") + ":" + strings.Join(ks, ","))
-				}
-			case *ast.IncDecStmt:
-				// counter advance at the end of the body
-				add("advance:" + short(w.Fset, st))
-			case *ast.BranchStmt, *ast.ReturnStmt:
-				prob("unexpected " + short(w.Fset, st))
-			default:
-				prob("unexpected statement " + short(w.Fset, st))
-			}
-		}
-		if nBlock != 1 {
-			prob(fmt.Sprintf("block evaluated %d times per iteration", nBlock))
-		}
-		// Go continue/goto anywhere in the body
-		inspectBody(l.Body, true, func(n ast.Node) bool {
-			if b, ok := n.(*ast.BranchStmt); ok && (b.Tok == token.CONTINUE || b.Tok == token.GOTO) {
-				prob("Go '" + b.Tok.String() + "' in the loop body (skips the statements that advance the loop)")
-			}
-			if ret, ok := n.(*ast.ReturnStmt); ok {
-				if len(ret.Results) != 2 || !isNilIdent(info, ret.Results[0]) {
-					prob("return other than (nil, err) in the loop body")
-				}
-			}
-			return true
-		})
-		// kind
-		switch {
-		case l.Init == nil && l.Post == nil:
-			s.kind = "iterator"
-		default:
-			src := short(w.Fset, l.Cond)
-			if strings.Contains(src, "len(") {
-				s.kind = "map"
-			} else {
-				s.kind = "slice"
-			}
-		}
-		sums = append(sums, s)
-	}
-	// the summaries without the advance statements must be equal and equal the expectation
-	want := []string{"bind-key", "bind-value", "eval-block", "return-on-error", "on-continueObject:res=val.Value", "on-breakObject:flag=true,res=val.Value", "accumulate-non-nil", "leave-if-break-flag"}
-	for _, s := range sums {
-		var core []string
-		for _, ft := range s.features {
-			if !strings.HasPrefix(ft, "advance:") {
-				core = append(core, ft)
-			}
-		}
-		con := s.kind + " loop body"
-		if len(s.problems) > 0 {
-			r.Bad("R1", f.Name(), con, w.Pos(s.loop.Pos()), "the loop body deviates from its siblings: "+strings.Join(s.problems, "; "))
-			continue
-		}
-		if strings.Join(core, " | ") == strings.Join(want, " | ") {
-			r.Ok("R1", f.Name(), con, w.Pos(s.loop.Pos()), strings.Join(core, " | "))
-		} else {
-			r.Bad("R1", f.Name(), con, w.Pos(s.loop.Pos()),
-				"summary ["+strings.Join(core, " | ")+"] differs from the sibling expectation ["+strings.Join(want, " | ")+"]")
-		}
-	}
-	// R2
-	for _, s := range sums {
-		l := s.loop
-		con := s.kind + " loop induction"
-		switch s.kind {
-		case "slice", "map":
-			iv, bound, ok := countedFromZero(info, l)
-			if !ok {
-				r.Bad("R2", f.Name(), con, w.Pos(l.Pos()), "the loop must count an index from 0 by +1 below the length")
-				continue
-			}
-			if s.kind == "slice" {
-				// bound: X.Len(); key = iv; value = X.Index(iv).Interface()
-				okB := false
-				var recv ast.Expr
-				if c, ok := unparen(bound).(*ast.CallExpr); ok && methodIs(calleeOf(info, c), "reflect", "Value", "Len") {
-					recv = unparen(c.Fun).(*ast.SelectorExpr).X
-					okB = true
-				}
-				okK := s.keyExpr != nil && objOf(info, s.keyExpr) == iv
-				okV := valueIsIndexOf(info, l, s.valExpr, recv, iv)
-				if okB && okK && okV {
-					r.Ok("R2", f.Name(), con, w.Pos(l.Pos()), "i from 0 by 1 below Len(); key i; value Index(i)")
-				} else {
-					r.Bad("R2", f.Name(), con, w.Pos(l.Pos()), "the slice loop must bind the running index as key and the element at that same index as value")
-				}
-			} else {
-				// bound: len(keys) with keys := X.MapKeys(); k := keys[iv]; v := X.MapIndex(k); key k.Interface(); value v.Interface()
-				okAll := mapLoopShape(info, f, l, s, iv, bound)
-				if okAll {
-					r.Ok("R2", f.Name(), con, w.Pos(l.Pos()), "each key of MapKeys() once; value is MapIndex of that key")
-				} else {
-					r.Bad("R2", f.Name(), con, w.Pos(l.Pos()), "the map loop must visit every key of MapKeys() once and bind that key together with MapIndex of that same key")
-				}
-			}
-		case "iterator":
-			okAll := iteratorLoopShape(info, f, l, s)
-			if okAll {
-				r.Ok("R2", f.Name(), con, w.Pos(l.Pos()), "counter from 0, +1 and Next() at the end of every iteration, loop ends at the first nil")
-			} else {
-				r.Bad("R2", f.Name(), con, w.Pos(l.Pos()), "the iterator loop must bind a counter that starts at 0 and is incremented exactly once per element, fetch the next element at the end of every iteration, and stop at the first nil")
-			}
-		}
-	}
-}
-
-// forIterableRule (R3): a nil iterable yields (nil, nil); anything that cannot be iterated is an error.
-func forIterableRule(r *Run) {
-	w := r.W
-	f := w.evalMethod("ForExpression")
-	if f == nil {
-		r.Lost("R3", "for evaluator")
-		return
-	}
-	info := f.Pkg.TypesInfo
-	// R3
-	nilOK, errOK := false, false
-	inspectBody(f.Decl.Body, true, func(n ast.Node) bool {
-		cc, ok := n.(*ast.CaseClause)
-		if !ok || cc.List != nil {
-			return true
-		}
-		if _, isSw := w.Parent(w.Parent(cc)).(*ast.SwitchStmt); !isSw {
-			return true
-		}
-		if len(cc.Body) == 0 {
-			return true
-		}
-		if ifs, ok := cc.Body[0].(*ast.IfStmt); ok {
-			if be, ok := unparen(ifs.Cond).(*ast.BinaryExpr); ok && be.Op == token.EQL && isNilIdent(info, be.Y) && len(ifs.Body.List) == 1 {
-				if ret, ok := ifs.Body.List[0].(*ast.ReturnStmt); ok && len(ret.Results) == 2 && isNilIdent(info, ret.Results[0]) && isNilIdent(info, ret.Results[1]) {
-					nilOK = true
-				}
-			}
-		}
-		if ret, ok := cc.Body[len(cc.Body)-1].(*ast.ReturnStmt); ok && len(ret.Results) == 2 && !isNilIdent(info, ret.Results[1]) {
-			if c, ok := unparen(ret.Results[1]).(*ast.CallExpr); ok && funcIs(calleeOf(info, c), "fmt", "Errorf") {
-				errOK = true
-			}
-		}
-		return true
-	})
-	if nilOK {
-		r.Ok("R3", f.Name(), "nil iterable renders nothing", w.Pos(f.Decl.Pos()), "if iter == nil { return nil, nil }")
-	} else {
-		r.Bad("R3", f.Name(), "nil iterable", w.Pos(f.Decl.Pos()), "a nil iterable must yield (nil, nil)")
-	}
-	if errOK {
-		r.Ok("R3", f.Name(), "non-iterable is an error", w.Pos(f.Decl.Pos()), "default arm ends in fmt.Errorf")
-	} else {
-		r.Bad("R3", f.Name(), "non-iterable value", w.Pos(f.Decl.Pos()), "a value that is neither map, slice, array nor Iterator must be an error")
-	}
-}
-
-func isErrNotNil(info *types.Info, e ast.Expr) bool {
-	be, ok := unparen(e).(*ast.BinaryExpr)
-	if !ok || be.Op != token.NEQ || !isNilIdent(info, be.Y) {
-		return false
-	}
-	tv, ok := info.Types[be.X]
-	return ok && isErrorType(tv.Type)
-}
-
-func isReturnNilErr(info *types.Info, st ast.Stmt) bool {
-	ret, ok := st.(*ast.ReturnStmt)
-	if !ok || len(ret.Results) != 2 || !isNilIdent(info, ret.Results[0]) {
-		return false
-	}
-	tv, ok := info.Types[ret.Results[1]]
-	return ok && isErrorType(tv.Type) && !isNilIdent(info, ret.Results[1])
-}
-
-func isNotNilOf(info *types.Info, e ast.Expr, o types.Object) bool {
-	be, ok := unparen(e).(*ast.BinaryExpr)
-	return ok && be.Op == token.NEQ && isNilIdent(info, be.Y) && o != nil && objOf(info, be.X) == o
-}
-
-func isAppendOf(info *types.Info, st ast.Stmt, elem types.Object) bool {
-	as, ok := st.(*ast.AssignStmt)
-	if !ok || len(as.Lhs) != 1 || len(as.Rhs) != 1 {
-		return false
-	}
-	c, ok := unparen(as.Rhs[0]).(*ast.CallExpr)
-	if !ok || builtinName(info, c) != "append" || len(c.Args) != 2 {
-		return false
-	}
-	return sameObjExpr(info, as.Lhs[0], c.Args[0]) && objOf(info, c.Args[1]) == elem
-}
-
-func isBreak(st ast.Stmt) bool {
-	b, ok := st.(*ast.BranchStmt)
-	return ok && b.Tok == token.BREAK && b.Label == nil
-}
-
-// countedFromZero: `for i := 0; i < B; i++` (or the accepted equivalent
-// headers i != B, B > i); returns the induction variable and the bound.
-func countedFromZero(info *types.Info, l *ast.ForStmt) (types.Object, ast.Expr, bool) {
-	as, ok := l.Init.(*ast.AssignStmt)
-	if !ok || len(as.Lhs) != 1 || len(as.Rhs) != 1 {
-		return nil, nil, false
-	}
-	if v, ok := constInt(info, as.Rhs[0]); !ok || v != 0 {
-		return nil, nil, false
-	}
-	iv := objOf(info, as.Lhs[0])
-	inc, ok := l.Post.(*ast.IncDecStmt)
-	if !ok || inc.Tok != token.INC || objOf(info, inc.X) != iv {
-		if pa, ok := l.Post.(*ast.AssignStmt); ok && pa.Tok == token.ADD_ASSIGN && objOf(info, pa.Lhs[0]) == iv {
-			if v, ok := constInt(info, pa.Rhs[0]); ok && v == 1 {
-				goto condCheck
-			}
-		}
-		return nil, nil, false
-	}
-condCheck:
-	be, ok := unparen(l.Cond).(*ast.BinaryExpr)
-	if !ok {
-		return nil, nil, false
-	}
-	x, y, op := be.X, be.Y, be.Op
-	if objOf(info, y) == iv {
-		x, y, op = y, x, flipOp(op)
-	}
-	if objOf(info, x) != iv || !(op == token.LSS || op == token.NEQ) {
-		return nil, nil, false
-	}
-	// the induction variable is not written in the body
-	written := false
-	inspectBody(l.Body, false, func(n ast.Node) bool {
-		switch s := n.(type) {
-		case *ast.AssignStmt:
-			for _, lh := range s.Lhs {
-				if objOf(info, lh) == iv {
-					written = true
-				}
-			}
-		case *ast.IncDecStmt:
-			if objOf(info, s.X) == iv {
-				written = true
-			}
-		}
-		return true
-	})
-	return iv, y, !written
-}
-
-// valueIsIndexOf: e is recv.Index(iv).Interface(), directly or through a
-// local assigned once in the loop body.
-func valueIsIndexOf(info *types.Info, l *ast.ForStmt, e, recv ast.Expr, iv types.Object) bool {
-	if e == nil || recv == nil {
-		return false
-	}
-	resolve := func(x ast.Expr) ast.Expr {
-		if o := objOf(info, x); o != nil {
-			for _, st := range l.Body.List {
-				if as, ok := st.(*ast.AssignStmt); ok && len(as.Lhs) == 1 && len(as.Rhs) == 1 && objOf(info, as.Lhs[0]) == o {
-					return as.Rhs[0]
-				}
-			}
-		}
-		return x
-	}
-	c, ok := unparen(e).(*ast.CallExpr)
-	if !ok || !methodIs(calleeOf(info, c), "reflect", "Value", "Interface") {
-		return false
-	}
-	inner := resolve(unparen(c.Fun).(*ast.SelectorExpr).X)
-	ic, ok := unparen(inner).(*ast.CallExpr)
-	if !ok || !methodIs(calleeOf(info, ic), "reflect", "Value", "Index") || len(ic.Args) != 1 {
-		return false
-	}
-	return objOf(info, ic.Args[0]) == iv && sameObjExpr(info, unparen(ic.Fun).(*ast.SelectorExpr).X, recv)
-}
-
-func mapLoopShape(info *types.Info, f *FuncInfo, l *ast.ForStmt, s loopSummary, iv types.Object, bound ast.Expr) bool {
-	// bound = len(keys)
-	c, ok := unparen(bound).(*ast.CallExpr)
-	if !ok || builtinName(info, c) != "len" {
-		return false
-	}
-	keys := objOf(info, c.Args[0])
-	if keys == nil {
-		return false
-	}
-	// keys := X.MapKeys() (single definition in the function)
-	var mapRecv ast.Expr
-	nDef := 0
-	inspectBody(f.Decl.Body, true, func(n ast.Node) bool {
-		if as, ok := n.(*ast.AssignStmt); ok {
-			for i, lh := range as.Lhs {
-				if objOf(info, lh) == keys && i < len(as.Rhs) {
-					nDef++
-					if kc, ok := unparen(as.Rhs[i]).(*ast.CallExpr); ok && methodIs(calleeOf(info, kc), "reflect", "Value", "MapKeys") {
-						mapRecv = unparen(kc.Fun).(*ast.SelectorExpr).X
-					}
-				}
-			}
-		}
-		return true
-	})
-	if nDef != 1 || mapRecv == nil {
-		return false
-	}
-	// k := keys[iv]; v := X.MapIndex(k)
-	var kObj, vObj types.Object
-	for _, st := range l.Body.List {
-		as, ok := st.(*ast.AssignStmt)
-		if !ok || len(as.Lhs) != 1 || len(as.Rhs) != 1 {
-			continue
-		}
-		if ix, ok := unparen(as.Rhs[0]).(*ast.IndexExpr); ok && objOf(info, ix.X) == keys && objOf(info, ix.Index) == iv {
-			kObj = objOf(info, as.Lhs[0])
-		}
-		if mc, ok := unparen(as.Rhs[0]).(*ast.CallExpr); ok && methodIs(calleeOf(info, mc), "reflect", "Value", "MapIndex") && len(mc.Args) == 1 {
-			if kObj != nil && objOf(info, mc.Args[0]) == kObj && sameObjExpr(info, unparen(mc.Fun).(*ast.SelectorExpr).X, mapRecv) {
-				vObj = objOf(info, as.Lhs[0])
-			}
-		}
-	}
-	if kObj == nil || vObj == nil {
-		return false
-	}
-	isIface := func(e ast.Expr, o types.Object) bool {
-		c, ok := unparen(e).(*ast.CallExpr)
-		if !ok || !methodIs(calleeOf(info, c), "reflect", "Value", "Interface") {
-			return false
-		}
-		return objOf(info, unparen(c.Fun).(*ast.SelectorExpr).X) == o
-	}
-	return isIface(s.keyExpr, kObj) && isIface(s.valExpr, vObj)
-}
-
-func iteratorLoopShape(info *types.Info, f *FuncInfo, l *ast.ForStmt, s loopSummary) bool {
-	// cond: ii != nil
-	be, ok := unparen(l.Cond).(*ast.BinaryExpr)
-	if !ok || be.Op != token.NEQ || !isNilIdent(info, be.Y) {
-		return false
-	}
-	elem := objOf(info, be.X)
-	if elem == nil || s.valExpr == nil || objOf(info, s.valExpr) != elem {
-		return false
-	}
-	counter := objOf(info, s.keyExpr)
-	if counter == nil {
-		return false
-	}
-	// last two statements: ii = it.Next(); i++   (either order)
-	n := len(l.Body.List)
-	if n < 2 {
-		return false
-	}
-	gotNext, gotInc := false, false
-	var itRecv ast.Expr
-	for _, st := range l.Body.List[n-2:] {
-		switch x := st.(type) {
-		case *ast.AssignStmt:
-			if len(x.Lhs) == 1 && len(x.Rhs) == 1 && x.Tok == token.ASSIGN && objOf(info, x.Lhs[0]) == elem {
-				if c, ok := unparen(x.Rhs[0]).(*ast.CallExpr); ok && len(c.Args) == 0 {
-					if cal := calleeOf(info, c); cal != nil && cal.Name() == "Next" {
-						gotNext = true
-						itRecv = unparen(c.Fun).(*ast.SelectorExpr).X
-					}
-				}
-			}
-		case *ast.IncDecStmt:
-			if x.Tok == token.INC && objOf(info, x.X) == counter {
-				gotInc = true
-			}
-		}
-	}
-	if !gotNext || !gotInc {
-		return false
-	}
-	// no other writes to counter/elem in the body
-	writes := 0
-	inspectBody(l.Body, false, func(n ast.Node) bool {
-		switch x := n.(type) {
-		case *ast.AssignStmt:
-			for _, lh := range x.Lhs {
-				if o := objOf(info, lh); o == counter || o == elem {
-					writes++
-				}
-			}
-		case *ast.IncDecStmt:
-			if objOf(info, x.X) == counter {
-				writes++
-			}
-		}
-		return true
-	})
-	if writes != 2 {
-		return false
-	}
-	// before the loop: counter := 0 and ii := it.Next() on the same iterator
-	blk, ok := f.Pkg.TypesInfo, true
-	_ = blk
-	parent := parentBlock(f, l)
-	if parent == nil {
-		return false
-	}
-	okC, okE := false, false
-	for _, st := range parent {
-		if st == ast.Stmt(l) {
-			break
-		}
-		as, isAs := st.(*ast.AssignStmt)
-		if !isAs || len(as.Lhs) != 1 || len(as.Rhs) != 1 {
-			continue
-		}
-		if objOf(info, as.Lhs[0]) == counter {
-			v, isC := constInt(info, as.Rhs[0])
-			okC = isC && v == 0
-		}
-		if objOf(info, as.Lhs[0]) == elem {
-			if c, isCall := unparen(as.Rhs[0]).(*ast.CallExpr); isCall {
-				if cal := calleeOf(info, c); cal != nil && cal.Name() == "Next" && sameObjExpr(info, unparen(c.Fun).(*ast.SelectorExpr).X, itRecv) {
-					okE = true
-				}
-			}
-		}
-	}
-	return okC && okE && ok
-}
-
-func parentBlock(f *FuncInfo, target ast.Stmt) []ast.Stmt {
-	var out []ast.Stmt
-	ast.Inspect(f.Decl.Body, func(n ast.Node) bool {
-		var list []ast.Stmt
-		switch x := n.(type) {
-		case *ast.BlockStmt:
-			list = x.List
-		case *ast.CaseClause:
-			list = x.Body
-		}
-		for _, st := range list {
-			if st == target {
-				out = list
-			}
-		}
-		return out == nil
-	})
-	return out
-}
-
 // ---- R4 ---------------------------------------------------------------------
 
-func blockExitRule(r *Run, rule string) {
-	w := r.W
-	f := w.evalMethod("BlockStatement")
-	if f == nil {
-		r.Lost(rule, "block evaluator")
-		return
-	}
-	info := f.Pkg.TypesInfo
-	// the accumulated slice: the local appended to in the loop
-	var loop *ast.RangeStmt
-	for _, st := range f.Decl.Body.List {
-		if rs, ok := st.(*ast.RangeStmt); ok {
-			loop = rs
-		}
-	}
-	if loop == nil {
-		r.Lost(rule, "statement loop of the block evaluator")
-		return
-	}
-	var acc types.Object
-	inspectBody(loop.Body, true, func(n ast.Node) bool {
-		if as, ok := n.(*ast.AssignStmt); ok && len(as.Lhs) == 1 && len(as.Rhs) == 1 {
-			if c, ok := unparen(as.Rhs[0]).(*ast.CallExpr); ok && builtinName(info, c) == "append" && sameObjExpr(info, as.Lhs[0], c.Args[0]) {
-				if acc == nil {
-					acc = objOf(info, as.Lhs[0])
-				}
-			}
-		}
-		return true
-	})
-	if acc == nil {
-		r.Lost(rule, "accumulated results of the block evaluator")
-		return
-	}
-	seen := map[string]bool{}
-	inspectBody(loop.Body, true, func(n ast.Node) bool {
-		cc, ok := n.(*ast.CaseClause)
-		if !ok || len(cc.List) != 1 {
-			return true
-		}
-		if _, isTS := w.Parent(w.Parent(cc)).(*ast.TypeSwitchStmt); !isTS {
-			return true
-		}
-		tn := strings.TrimPrefix(typeStr(info.Types[cc.List[0]].Type), "plush.")
-		if tn != "continueObject" && tn != "breakObject" {
-			return true
-		}
-		seen[tn] = true
-		bound := info.Implicits[cc]
-		// a composite literal of the same type whose Value mentions both acc and bound.Value
-		good := false
-		inspectBody(cc, true, func(m ast.Node) bool {
-			cl, ok := m.(*ast.CompositeLit)
-			if !ok || strings.TrimPrefix(typeStr(info.Types[cl].Type), "plush.") != tn {
-				return true
-			}
-			for _, e := range cl.Elts {
-				kv, ok := e.(*ast.KeyValueExpr)
-				if !ok {
-					continue
-				}
-				if k, _ := kv.Key.(*ast.Ident); k == nil || k.Name != "Value" {
-					continue
-				}
-				usesAcc, usesInner := false, false
-				ast.Inspect(kv.Value, func(x ast.Node) bool {
-					if id, ok := x.(*ast.Ident); ok && info.Uses[id] == acc {
-						usesAcc = true
-					}
-					if e2, ok := x.(ast.Expr); ok {
-						if bx, fld := fieldOf(info, e2); fld != nil && fld.Name() == "Value" && objOf(info, bx) == bound {
-							usesInner = true
-						}
-					}
-					return true
-				})
-				// the accumulated part must come first
-				if c, ok := unparen(kv.Value).(*ast.CallExpr); ok && builtinName(info, c) == "append" && len(c.Args) == 2 {
-					if objOf(info, c.Args[0]) != acc {
-						usesAcc = false
-					}
-				}
-				good = usesAcc && usesInner
-			}
-			return true
-		})
-		con := tn + " keeps the output produced so far"
-		if good {
-			r.Ok(rule, f.Name(), con, w.Pos(cc.Pos()), "Value: append(<accumulated>, <inner>.Value...)")
-		} else {
-			r.Bad(rule, f.Name(), con, w.Pos(cc.Pos()), "a "+tn+" leaving the block must carry what the block already produced followed by what the inner object carried")
-		}
-		return true
-	})
-	for _, tn := range []string{"continueObject", "breakObject"} {
-		if !seen[tn] {
-			r.Bad(rule, f.Name(), "no arm for "+tn, w.Pos(loop.Pos()), "the block evaluator must fold its partial output into "+tn)
-		}
-	}
-	// the exit branch returns inside the loop
-	okRet := false
-	inspectBody(loop.Body, true, func(n ast.Node) bool {
-		if ret, ok := n.(*ast.ReturnStmt); ok && len(ret.Results) == 2 && isNilIdent(info, ret.Results[1]) {
-			okRet = true
-		}
-		return true
-	})
-	if okRet {
-		r.Ok(rule, f.Name(), "exit object ends the block in the same iteration", w.Pos(loop.Pos()), "return <object>, nil inside the loop")
-	} else {
-		r.Bad(rule, f.Name(), "exit object does not end the block", w.Pos(loop.Pos()), "once a statement yields a break/continue/return object no later statement of the block may run")
-	}
-}
-
 // ---- R5 ---------------------------------------------------------------------
-
-func inLoopFlagRule(r *Run, rule string) {
-	w := r.W
-	pm := w.parserModel()
-	if len(pm.problems) > 0 {
-		r.Lost(rule, "parser model")
-		return
-	}
-	info := pm.info
-	// the bool field of the parser
-	var flag *types.Var
-	st := pm.typ.Underlying().(*types.Struct)
-	for i := 0; i < st.NumFields(); i++ {
-		if isBasicKind(st.Field(i).Type(), types.Bool) {
-			flag = st.Field(i)
-		}
-	}
-	if flag == nil {
-		r.Lost(rule, "in-loop flag of the parser")
-		return
-	}
-	canParseBlock := func(c *ast.CallExpr) bool {
-		cal := calleeOf(info, c)
-		if cal == nil {
-			return pm.isRegistryCall(c)
-		}
-		return cal == pm.blockParse.Obj || cal == pm.pratt.Obj || cal == pm.stmtParse.Obj
-	}
-	// named restore helpers: parser methods whose whole body is `<recv>.flag = <parameter>`
-	restoreHelper := map[*types.Func]int{}
-	for _, f := range pm.methods {
-		if len(f.Decl.Body.List) != 1 {
-			continue
-		}
-		as, ok := f.Decl.Body.List[0].(*ast.AssignStmt)
-		if !ok || len(as.Lhs) != 1 || len(as.Rhs) != 1 {
-			continue
-		}
-		if _, fld := fieldOf(info, as.Lhs[0]); fld != flag {
-			continue
-		}
-		sig := f.Obj.Type().(*types.Signature)
-		for i := 0; i < sig.Params().Len(); i++ {
-			if objOf(info, as.Rhs[0]) == sig.Params().At(i) {
-				restoreHelper[f.Obj] = i
-			}
-		}
-	}
-	for _, f := range pm.methods {
-		if _, isHelper := restoreHelper[f.Obj]; isHelper {
-			continue
-		}
-		type store struct {
-			as       *ast.AssignStmt
-			rhs      ast.Expr
-			deferred bool
-		}
-		var stores []store
-		// `defer helper(p.flag)` / `defer helper(saved)`: the argument is evaluated at the defer statement
-		var helperRestoreAt token.Pos
-		inspectBody(f.Decl.Body, false, func(n ast.Node) bool {
-			if d, ok := n.(*ast.DeferStmt); ok {
-				if pi, isH := restoreHelper[calleeOf(info, d.Call)]; isH && pi < len(d.Call.Args) {
-					if _, fld := fieldOf(info, d.Call.Args[pi]); fld == flag {
-						helperRestoreAt = d.Pos()
-					}
-				}
-			}
-			return true
-		})
-		var walk func(n ast.Node, deferred bool)
-		walk = func(n ast.Node, deferred bool) {
-			ast.Inspect(n, func(m ast.Node) bool {
-				switch x := m.(type) {
-				case *ast.DeferStmt:
-					if fl, ok := x.Call.Fun.(*ast.FuncLit); ok {
-						walk(fl.Body, true)
-						return false
-					}
-				case *ast.AssignStmt:
-					for i, l := range x.Lhs {
-						if _, fld := fieldOf(info, l); fld == flag && i < len(x.Rhs) {
-							stores = append(stores, store{x, x.Rhs[i], deferred})
-						}
-					}
-				}
-				return true
-			})
-		}
-		walk(f.Decl.Body, false)
-		if len(stores) == 0 {
-			continue
-		}
-		// saved local
-		var saved types.Object
-		var savePos token.Pos
-		inspectBody(f.Decl.Body, false, func(n ast.Node) bool {
-			if as, ok := n.(*ast.AssignStmt); ok && len(as.Lhs) == 1 && len(as.Rhs) == 1 {
-				if _, fld := fieldOf(info, as.Rhs[0]); fld == flag {
-					saved = objOf(info, as.Lhs[0])
-					savePos = as.Pos()
-				}
-			}
-			return true
-		})
-		var firstBlockParse token.Pos
-		for _, c := range callsIn(f.Decl.Body, false) {
-			if canParseBlock(c) && (!firstBlockParse.IsValid() || c.Pos() < firstBlockParse) {
-				firstBlockParse = c.Pos()
-			}
-		}
-		hasRestore := false
-		for _, s := range stores {
-			if s.deferred && saved != nil && objOf(info, s.rhs) == saved {
-				hasRestore = true
-			}
-		}
-		// a deferred helper call whose argument is a saved local
-		inspectBody(f.Decl.Body, false, func(n ast.Node) bool {
-			if d, ok := n.(*ast.DeferStmt); ok {
-				if pi, isH := restoreHelper[calleeOf(info, d.Call)]; isH && pi < len(d.Call.Args) && saved != nil && objOf(info, d.Call.Args[pi]) == saved {
-					hasRestore = true
-				}
-			}
-			return true
-		})
-		for _, s := range stores {
-			con := "store " + short(w.Fset, s.as)
-			if s.deferred {
-				if saved != nil && objOf(info, s.rhs) == saved {
-					r.Ok(rule, f.Name(), con, w.Pos(s.as.Pos()), "deferred restore of the value saved on entry")
-				} else {
-					r.Bad(rule, f.Name(), con, w.Pos(s.as.Pos()), "the deferred write must restore the value saved on entry")
-				}
-				continue
-			}
-			tv := info.Types[s.rhs]
-			switch {
-			case tv.Value == nil:
-				r.Bad(rule, f.Name(), con, w.Pos(s.as.Pos()), "the in-loop flag is set from a non-constant outside a deferred restore")
-			case helperRestoreAt.IsValid() && helperRestoreAt < s.as.Pos() && !(firstBlockParse.IsValid() && s.as.Pos() > firstBlockParse):
-				r.Ok(rule, f.Name(), con, w.Pos(s.as.Pos()), "the current value is handed to a deferred restore before the store; set before anything that can parse a block")
-			case saved == nil || !hasRestore || savePos > s.as.Pos():
-				r.Bad(rule, f.Name(), con, w.Pos(s.as.Pos()),
-					"the in-loop flag is overwritten with a constant without saving it first and restoring it by defer: after this construct an enclosing loop body no longer accepts break/continue")
-			case firstBlockParse.IsValid() && s.as.Pos() > firstBlockParse:
-				r.Bad(rule, f.Name(), con+" after a sub-parse", w.Pos(s.as.Pos()),
-					"the flag is set only after a call that can already parse the body (an iterable that is a call with a block carries the loop body): break/continue in that body are rejected")
-			default:
-				r.Ok(rule, f.Name(), con, w.Pos(s.as.Pos()), "saved before, restored by defer, set before anything that can parse a block")
-			}
-		}
-	}
-}
